@@ -4,7 +4,7 @@ import re
 from tc.facts import call_names, loc
 from tc.flow import op_place
 from tc.sym import SymExec, show, show_atom, show_path
-from tc.util import agg_sites, calls_matching, cfg_of, const_strs, flow_of, local_def, where
+from tc.util import bool_origin, guards_of, switch_true_edges, agg_sites, calls_matching, cfg_of, const_strs, flow_of, local_def, where
 import roles as RL
 
 ENC = "server::encryption"
@@ -307,6 +307,22 @@ def rule_X4(F, R):
                 continue
             if not _has(oa[3], lambda v: v[0] == "F" and v[3] == "payload" and _has(v, lambda z: z[0] == "C" and z[1] == fb[0]["id"])):
                 R.violation("X4", b["path"], "ciphertext-source", "the bytes being opened are not the envelope's payload", w)
+                continue
+            # acceptance set: seal accepts every payload (also the empty one, whose ciphertext is exactly the
+            # tag), so unseal may succeed only under from_bytes-Ok and open_in_place-Ok; the one extra condition
+            # that cannot reject anything seal produced is `len(ciphertext) < tag_len` (the AEAD refuses that anyway)
+            extra = []
+            for a, o in okatoms.items():
+                if a[0] == "variant" and o in ("Ok", "Continue") and (_has(a[1], lambda v: v[0] == "C" and v[1] in (op[0]["id"], fb[0]["id"]))):
+                    continue
+                if a[0] == "bin" and _has(a, lambda v: v[0] == "C" and v[2].endswith("::tag_len")) and _has(a, lambda v: v[0] == "C" and v[2].endswith("::len")):
+                    len_left = _has(a[2], lambda v: v[0] == "C" and v[2].endswith("::len"))
+                    harmless = (a[1], len_left, o) in (("Lt", True, False), ("Ge", True, True), ("Gt", False, False), ("Le", False, True))
+                    if harmless:
+                        continue
+                extra.append((a, o))
+            if extra:
+                R.violation("X4", b["path"], "extra-acceptance-condition", "unseal succeeds only if additionally `%s` = %s: a payload that seal produced (e.g. the empty payload, whose ciphertext is exactly the tag) is stored but can never be read back" % (show_atom(extra[0][0])[:140], extra[0][1]), w)
                 continue
             r = dict(p.ret[3][0][1][3])
             pl = r.get("payload", ("?",))
@@ -639,3 +655,32 @@ def rule_X7(F, R):
             R.ok("X7", "object store: salt created by compare_and_swap(None, gen_salt())", where(gs, cas[0][0]))
         else:
             R.violation("X7", gs["owner_fn"], "salt-creation", "the object-store salt is not created via compare_and_swap with a gen_salt value", where(gs))
+    # X7b: the salt handed to the key derivation is the one the store holds after the swap (read back),
+    # never the locally generated candidate: when two handles race to create the salt, the loser's
+    # candidate is not what was stored, and everything sealed with it is unreadable to everyone else
+    if gs is not None:
+        c = cfg_of(gs)
+        fl = flow_of(gs)
+        stopget = lambda t: any(x.endswith("Service::get") for x in call_names(t))
+        oks = agg_sites(c, "result::Result", "Ok")
+        n_get = 0
+        for (i, j, st) in oks:
+            sl = fl.slice_operand(st["r"]["ops"][0], stop=stopget)
+            swapped = False
+            if sl.has_call(r"gen_salt$"):
+                # returning the candidate is right exactly when the swap reported that it was stored
+                for (s, labs) in guards_of(c, i):
+                    bo = bool_origin(fl, c.term(s)["o"])
+                    if bo and any(x.endswith("Service::compare_and_swap") for x in call_names(bo[1])):
+                        te = {lab for (_s, _j, lab) in switch_true_edges(c, s, bo[2])}
+                        if set(labs) <= te:
+                            swapped = True
+            if swapped:
+                n_get += 1
+                R.ok("X7", "object store: the candidate salt is returned only when the swap stored it", where(gs, sp=st["sp"]))
+            elif sl.has_call(r"gen_salt$"):
+                R.violation("X7", gs["owner_fn"], "salt-not-read-back", "the salt returned is the locally generated candidate, not the value read back from the store: a handle that loses the creation race derives a key nobody else can use", where(gs, sp=st["sp"]))
+            elif sl.has_call(r"Service::get$"):
+                n_get += 1
+                R.ok("X7", "object store: the salt returned is read from the store", where(gs, sp=st["sp"]))
+        R.floor("X7", "successful returns of the stored salt", n_get, 1)
